@@ -15,7 +15,7 @@ var precisions = []uint32{1, 2, 3, 5, 7, 9, 16, 20, 34, 60, 100, 130, 200}
 
 type erange struct{ max, min int32 }
 
-var eranges = []erange{{5, -5}, {20, -20}, {384, -383}, {6144, -6143}, {100000, -100000}}
+var eranges = []erange{{5, -5}, {20, -20}, {384, -383}, {6144, -6143}, {100000, -100000}, {40, 0}, {9, -40}, {100000, -5}}
 
 func two(n uint) *big.Int { return new(big.Int).Lsh(big.NewInt(1), n) }
 
@@ -216,6 +216,10 @@ func GenCtx(r *plan.Rng, traps uint32, maxPrec uint32) plan.Ctx {
 			er = erange{100000, -100000}
 		}
 	}
+	if r.Chance(1, 24) {
+		// Precision 0 (as in BaseContext): no rounding; several operations refuse it
+		p = 0
+	}
 	c := plan.Ctx{P: p, Emax: er.max, Emin: er.min, Traps: traps, Round: RounderNames[r.Intn(len(RounderNames))]}
 	if r.Chance(1, 25) {
 		// exponent limits beyond the package's own (as the GDA test files use)
@@ -269,6 +273,10 @@ func Sibling(r *plan.Rng, d plan.Dec) plan.Dec {
 	case 2:
 		// same value, different representation (trailing zeros moved into the exponent)
 		z := r.Intn(4)
+		if r.Chance(1, 4) {
+			// exponent gaps beyond the static power-of-ten table
+			z = []int{20, 129, 130, 200, 300}[r.Intn(5)]
+		}
 		s.Coeff = d.Coeff + strings.Repeat("0", z)
 		s.Exp = d.Exp - int32(z)
 	default:
